@@ -51,7 +51,14 @@ class TemplateView(_Assumed):
     """_decode_traceheader_template() per HwiInitBuffer + GetHeaderDict: some template dict"""
     only_in = ('SgzReader.__init__',)
     def fresh_result(self, c, a):
-        t = {1: 0, 189: 0}
+        # a template as get_header_dict builds it for a heuristic-mode table: two stored arrays (fields 1 and 189), a constant (5), an absent
+        # field (193) and a DUPLICATED header word (181 carries the same values as 1: both entries hold the offset of the one array)
+        from pyvc.symex import TaggedInt
+        o0 = c.sym_int('tpl_off0', lo=0, name='offset_of_stored_array_0')
+        o1 = c.sym_int('tpl_off1', lo=0, name='offset_of_stored_array_1')
+        c.assume(lt(o0, o1))
+        first = TaggedInt(o0, 'FileOffset')
+        t = {1: first, 5: c.sym_int('tpl_const5', name='constant_field_value'), 181: first, 189: TaggedInt(o1, 'FileOffset'), 193: 0}
         c.ghost['template'] = t
         return t
 
@@ -162,7 +169,9 @@ class ReaderInit(Contract):
             c.ensure(Implies(newer, Iff(st, eq(tc, grid))), 'state.structured_iff_every_grid_position_has_a_trace')
         c.ensure(mk_bool(F.get('variant_headers') == {}), 'state.no_header_arrays_loaded')
         c.ensure(mk_bool(F.get('segy_traceheader_template') is c.ghost.get('template')), 'state.template_from_the_header_table')
-        c.ensure(mk_bool(F.get('stored_header_keys') == []), 'state.stored_keys_are_the_FileOffset_entries')
+        # one key per stored ARRAY, in file order: a duplicated header word (181) shares the array of the field it duplicates and owns none
+        # (the cropper and the re-blocker write one footer array per entry of this list: C10 / C12)
+        c.ensure(mk_bool(F.get('stored_header_keys') == [1, 189]), 'state.stored_keys_one_per_stored_array_in_file_order')
         hb = F.get('headerbytes')
         q = c.sym_int('hq', lo=0, hi=2 * BLK - 1, name='header_byte')
         t = hb.tok(q)
@@ -210,7 +219,9 @@ for _cfg in _c3:
             if _irr and _pre:
                 continue
             nm = f'{_cfg[0]}@{"x".join(map(str, _cfg[1]))}' + (',preload' if _pre else '') + (',irregular' if _irr else '')
-            fuc(RI + '__init__', props=['C02', 'C03', 'C07', 'C08' if _irr else 'C05', 'C15', 'C18'])(type('ReaderInit', (ReaderInit,), dict(cfg=_cfg, preload=_pre, irregular=_irr, variant=nm)))
+            # the cropper (C10) and the re-blocker (C12) write one footer array per entry of stored_header_keys: they rely on this contract
+            _more = ['C10', 'C12'] if (_cfg is CFG_DEFAULT[3] and not _pre) else []
+            fuc(RI + '__init__', props=['C02', 'C03', 'C07', 'C08' if _irr else 'C05', 'C15', 'C18'] + _more)(type('ReaderInit', (ReaderInit,), dict(cfg=_cfg, preload=_pre, irregular=_irr, variant=nm)))
 for _cfg in (ALL2[0], ALL2[2], [c_ for c_ in ALL2 if c_[1][1] == 16][0]):
     nm = f'{_cfg[0]}@{"x".join(map(str, _cfg[1]))},2d'
     fuc(RI + '__init__', props=['C09', 'C03', 'C05', 'C15', 'C18'])(type('ReaderInit2d', (ReaderInit,), dict(cfg=_cfg, two_d=True, variant=nm)))
